@@ -2129,8 +2129,14 @@ func c18BuildRace() {
 		c18RaceErr = "VERIF_ROOT not set"
 		return
 	}
-	src := filepath.Join(root, ".work", "harness-build")
-	bin := filepath.Join(root, ".work", "bin", "harness-race")
+	// a harness built against another tree than /repo carries a tag in its name (vlib.REPO_TAG): its race twin is built
+	// from the matching source directory and gets the same tag
+	tag := ""
+	if self, err := os.Executable(); err == nil {
+		tag = strings.TrimPrefix(filepath.Base(self), "harness")
+	}
+	src := filepath.Join(root, ".work", "harness-build"+tag)
+	bin := filepath.Join(root, ".work", "bin", "harness-race"+tag)
 	lock, err := os.OpenFile(filepath.Join(root, ".work", "harness-race.lock"), os.O_CREATE|os.O_RDWR, 0o644)
 	if err != nil {
 		c18RaceErr = err.Error()
